@@ -43,10 +43,10 @@ Section PeelDP.
       apply succs_ok in HG. rewrite H in HG. destruct HG.
   Qed.
 
-  Lemma find_sound f b p : nonneg G f -> conserving G f -> find_mb f = MBPath b p ->
+  Lemma find_sound f b p : nonneg G f -> find_mb f = MBPath b p ->
     0 < b /\ ss_path G p /\ (forall e, In e (pairs p) -> b <= f e) /\ (exists e, In e (pairs p) /\ f e = b).
   Proof.
-    intros N _ H. unfold find_mb in H.
+    intros N H. unfold find_mb in H.
     destruct (max_bottleneck_sound G f preds succs preds_ok N keyerr topo b p topo_sorted H) as (H1 & H2 & H3 & H4 & H5 & H6 & H7).
     split; [assumption|]. split; [|split; assumption].
     split; [assumption|]. split; [assumption|]. split; [apply ins_nil; assumption|apply outs_nil; assumption].
@@ -91,6 +91,16 @@ Section PeelDP.
   Proof.
     intros Hne N C. unfold decompose.
     apply (peel_explains G G_nodup rank Hrank R HR find_mb find_sound find_complete (find_nosink Hne)); [assumption|assumption|lia].
+  Qed.
+
+  Theorem greedy_peeling_routes f : keyerr = false \/ G <> [] -> nonneg G f ->
+    exists D, decompose keyerr G preds succs topo f = PeelOK D /\
+              Forall (fun pw => ss_path G (fst pw) /\ 0 < snd pw) D /\
+              (forall e, In e G -> 0 <= explained D e <= f e) /\
+              (length D <= npos G f)%nat.
+  Proof.
+    intros Hne N. unfold decompose.
+    apply (peel_routes G find_mb find_sound (find_nosink Hne)); [assumption|lia].
   Qed.
 End PeelDP.
 
@@ -224,3 +234,39 @@ Theorem greedy_peeling_explains_code G P S topo (f : edge -> Z) :
             Forall (fun pw => ss_path G (fst pw) /\ 0 < snd pw) D /\
             (length D <= npos G f)%nat.
 Proof. intros H. apply greedy_peeling_explains_checked; [exact H|left; reflexivity]. Qed.
+
+(* any non-negative flow (conserving or not): the code as it is returns source-to-sink paths of the ORIGINAL graph with
+   positive weights, within #positive edges rounds, and never explains more than the flow of an edge *)
+Theorem greedy_peeling_routes_code G P S topo (f : edge -> Z) :
+  peel_inputs_ok G P S topo = true -> nonneg G f ->
+  exists D, decompose code_nosink_keyerror G (adj_of P) (adj_of S) topo f = PeelOK D /\
+            Forall (fun pw => ss_path G (fst pw) /\ 0 < snd pw) D /\
+            (forall e, In e G -> 0 <= explained D e <= f e) /\
+            (length D <= npos G f)%nat.
+Proof.
+  unfold peel_inputs_ok. rewrite !andb_true_iff, !forallb_forall. intros (((((H1 & H2) & H3) & H4) & H5) & H6).
+  apply nodupE_NoDup in H1. apply nodupb_NoDup in H2.
+  assert (OK : dag_topo_ok [] G topo = true).
+  { unfold dag_topo_ok. rewrite !andb_true_iff. split; [split; [apply nodupb_NoDup; assumption|reflexivity]|].
+    apply forallb_forall. exact H3. }
+  assert (Pok : forall u v, In u (adj_of P v) <-> In (u, v) G).
+  { intros u v. split.
+    - intros Hu. destruct (adj_of_In _ _ _ Hu) as (p & Hp & <- & Hx). specialize (H5 p Hp).
+      rewrite forallb_forall in H5. apply memE_In, H5, Hx.
+    - intros Huv. specialize (H4 _ Huv). cbn [fst snd] in H4. apply andb_true_iff in H4. apply memN_In. tauto. }
+  assert (Sok : forall u v, In v (adj_of S u) <-> In (u, v) G).
+  { intros u v. split.
+    - intros Hv. destruct (adj_of_In _ _ _ Hv) as (p & Hp & <- & Hx). specialize (H6 p Hp).
+      rewrite forallb_forall in H6. apply memE_In, H6, Hx.
+    - intros Huv. specialize (H4 _ Huv). cbn [fst snd] in H4. apply andb_true_iff in H4. apply memN_In. tauto. }
+  apply (greedy_peeling_routes G H1 (pos topo)) with (R := length topo).
+  - intros u v Huv. apply beforeb_pos; [assumption|]. apply (H3 _ Huv).
+  - intros v. apply pos_le.
+  - exact Pok.
+  - exact Sok.
+  - apply (sorted_ext (preds_of G)); [|apply (sorted_pred [] G topo OK)].
+    intros v u Hu. apply preds_of_In, Pok, Hu.
+  - intros [u v] Huv. specialize (H3 _ Huv). cbn [fst snd] in *.
+    destruct (beforeb_split _ _ _ H2 H3) as (l1 & l2 & -> & Hv & _). split; apply in_or_app; right; [left; reflexivity|right; assumption].
+  - left. reflexivity.
+Qed.
